@@ -45,6 +45,7 @@ type IfaceV struct {
 	Dyn types.Type // nil => nil interface
 	V   Value
 	ID  int // registry id for non-pointer payloads
+	Unk *Term // unresolved reference id (dynamic type unknown); Dyn is nil then
 }
 
 // IfaceM is a guarded choice between concrete interface values
@@ -96,6 +97,7 @@ type State struct {
 	Assume []*Term // guarded facts (from recorded obligations, contracts); never used as merge guards
 	Events []Event
 	Loops  []*loopAct // active loops under verification (for modifies checks)
+	Facts  map[int64]bool // literals known to hold on this path (from assumed contract postconditions)
 }
 
 // Event is a call to a trusted / unknown callee recorded in the ghost event log
@@ -115,6 +117,12 @@ func (s *State) clone() *State {
 		n.Heap[k] = v
 	}
 	n.Loops = append([]*loopAct(nil), s.Loops...)
+	if len(s.Facts) > 0 {
+		n.Facts = make(map[int64]bool, len(s.Facts))
+		for k := range s.Facts {
+			n.Facts[k] = true
+		}
+	}
 	n.Cond = append([]*Term(nil), s.Cond...)
 	n.Assume = append([]*Term(nil), s.Assume...)
 	n.Events = append([]Event(nil), s.Events...)
